@@ -4,5 +4,5 @@
 export GOFLAGS=-mod=mod GOPROXY=off GOSUMDB=off GOTOOLCHAIN=local
 f=$1; pkg=$2; pat=$3; tmp=$(mktemp -d)
 echo "{\"Replace\":{\"/repo/$pkg/$(basename $f)\":\"$f\"}}" > $tmp/ov.json
-(cd /repo && go test -overlay $tmp/ov.json -vet=off -count=1 -timeout 120s -run "$pat" ./$pkg/ 2>&1 | tail -40)
+(cd /repo && go test -overlay $tmp/ov.json -vet=off -count=1 -timeout 300s -run "$pat" ./$pkg/ 2>&1 | tail -40)
 rc=$?; rm -rf $tmp; exit $rc
